@@ -257,6 +257,63 @@ def sweep(run, tier, rng):
     run.sample(dict(kind="repro", cfg=str(cfgs[0]), evidence=a[0][2], trace=a[2]))
 
 
+def lifecycle_probe(run):
+    """(i) the seed takes effect when a fresh run starts, not when the object is built: whatever happens to the global stream
+    between construction and run() (other samplers being built, the caller drawing numbers) does not change a seeded run, and
+    building a seeded sampler does not disturb the caller's stream; (ii) loading the checkpoint of an UNSEEDED sampler leaves
+    the caller's stream alone."""
+    import tempfile
+    from tempest import Sampler
+
+    def digest(s):
+        h = s.state
+        return (np.concatenate([np.ravel(a) for a in h._history["u"]]).tobytes(), float(s.evidence()[0]))
+    ref = Sampler(pt, ll, n_dim=2, n_particles=12, random_state=21, clustering=False)
+    ref.run(n_total=30, progress=False)
+    want = digest(ref)
+    np.random.seed(99)
+    expect_next = float(np.random.RandomState(99).rand())
+    a = Sampler(pt, ll, n_dim=2, n_particles=12, random_state=21, clustering=False)
+    got_next = float(np.random.rand())
+    run.case(key=("lifecycle", "construction"), nontrivial=True)
+    if got_next != expect_next:
+        run.fail("library-reseeds-global-stream", "constructing a seeded Sampler changed the caller's global random stream",
+                 ops=["np.random.seed(99)", "Sampler(random_state=21)", "np.random.rand()"])
+    Sampler(pt, ll, n_dim=2, n_particles=12, random_state=22, clustering=False)   # another sampler built in between
+    np.random.rand(7)                                                             # the caller draws in between
+    a.run(n_total=30, progress=False)
+    run.case(key=("lifecycle", "run-after-other-activity"), nontrivial=True)
+    if digest(a) != want:
+        run.fail("seeded-run-not-reproducible", "a seeded run depends on what happened to the global stream between the construction of the "
+                 "Sampler and run() (another Sampler built, numbers drawn)", ops=["a = Sampler(random_state=21)", "Sampler(random_state=22)", "np.random.rand(7)", "a.run()"])
+    # unseeded sampler: checkpoint, then load into a fresh unseeded sampler under a seed chosen by the caller
+    d = tempfile.mkdtemp(prefix="c09_", dir=run.scratch.dir)
+    np.random.seed(5)
+    u = Sampler(pt, ll, n_dim=2, n_particles=12, random_state=None, clustering=False, output_dir=d, output_label="u")
+    u.run(n_total=30, progress=False, save_every=1)
+    ck = sorted(p for p in __import__("pathlib").Path(d).glob("u_[0-9]*.state"))
+    calls = []
+    orig = np.random.seed
+
+    def rec(*a_, **k_):
+        calls.append(a_[0] if a_ else None)
+        return orig(*a_, **k_)
+    nxt = []
+    for pre in (41, 42):
+        v = Sampler(pt, ll, n_dim=2, n_particles=12, random_state=None, clustering=False)
+        orig(pre)
+        np.random.seed = rec
+        try:
+            v.load_state(str(ck[len(ck) // 2]))
+        finally:
+            np.random.seed = orig
+        nxt.append((float(np.random.rand()), float(np.random.RandomState(pre).rand())))
+    run.case(key=("lifecycle", "load-unseeded"), nontrivial=True)
+    if calls or any(g != w for g, w in nxt):
+        run.fail("library-reseeds-global-stream", f"loading the checkpoint of an unseeded sampler touched the global stream (np.random.seed called with "
+                 f"{calls}; next draws {[g for g, _ in nxt]} instead of {[w for _, w in nxt]})", ops=["unseeded run with save_every=1", "np.random.seed(41)", "fresh.load_state(ckpt)"])
+
+
 def fit_probe(run, tier, rng):
     from tempest.cluster import GaussianMixture, HierarchicalGaussianMixture
     reps = 6 if tier == "quick" else 40
@@ -316,6 +373,7 @@ def main(tier, seed):
     try:
         sweep(run, tier, rng)
         fit_probe(run, tier, rng)
+        lifecycle_probe(run)
     except Exception:
         import traceback
         run.broken.append(("harness-exception", traceback.format_exc()[-1500:]))
